@@ -9,29 +9,42 @@ package main
 // it derives 5 further environments whose representations are chosen independently at every
 // node, each only where C18 names it:
 //
-//   drop       anywhere (variable, array element, map value), at any depth
+//   drop       anywhere (variable, array element, map value), at any depth, also inside a container that is
+//              printed in Go syntax (`{{ m }}`, an array converted to a string, a joined nested array, the needle
+//              of a string `contains`, a sort_natural key); now and then a drop that yields a drop (that yields
+//              a drop)
 //   pointer    at a variable, and at a map value when the map is only used through property /
 //              index lookup
 //   typed      typed slices ([]int8, []string, []map[string]any, ...), fixed arrays and
-//              string-keyed typed maps, when all elements fit the type
+//              string-keyed typed maps, when all elements fit the type; under uniq the arrays nested in an
+//              array are typed, generic, fixed or behind drops independently of each other
 //   MapSlice   an ordered YAML map, when the template only does lookup / size on that variable
 //   width      every integer width that holds the value (unsigned when >= 0); float32 when the
-//              float is exactly representable - in print, compare and arithmetic positions
+//              float is exactly representable - in print, compare and arithmetic positions; under uniq
+//              all scalars of the array get one width (uniq tells int8(1) from 1, by design)
 //   []byte     when the string is only printed or passed to a string filter
 //
 // All six are rendered on the REAL engine and emitted as `render` lines. ORACLE: every derived
 // environment gives the result of the generic one (output bytes, or error kind). On a
 // difference the stream isolates the statement and minimises the representation (which
 // variable, which feature) and reports that minimal case.
+//
+// Nested drops: the library once printed a drop nested in a map or an array as the Go struct that it is
+// (`{{ m }}` with m = {"a": Drop(1)} rendered map[a:{1}]), resolved a drop that yields a drop one level only,
+// and let uniq tell []int{1} from []any{1}; the generator kept drops out of those places and a fixed family
+// reported the four deviations as known findings. fixes/nested-drops-resolved.patch repaired the library
+// (values.ToLiquid to a fixpoint, values.ResolveDrops before every fmt.Sprint, uniq by contents): the generator
+// now puts drops there, and the fixed family (repsNestedDropFamily, shard 0, real engine only) is a table of
+// (variant, generic twin) rows that must all agree. Not covered, because they show the Go representation by
+// design: the filters json, inspect and type.
 
 import (
 	"fmt"
 	"math"
 	"math/big"
+	"reflect"
 	"sort"
 	"strings"
-
-	"github.com/osteele/liquid"
 )
 
 func init() {
@@ -254,9 +267,7 @@ type repCtx struct {
 	mapSlice bool // MapSlice allowed for this map (lookup / size only)
 	bytesOK  bool // []byte allowed for a string here
 	widthsOK bool // other numeric widths allowed here
-	uniform  bool // all elements of an array get the same representation (uniq)
-	noDropIn bool // no drops below this node (the container is printed in Go syntax)
-	noDrop   bool
+	uniform  bool // all scalars of an array get the same width (uniq tells int8(1) from 1); containers and drops vary
 }
 
 var intRanges = [10][2]*big.Int{}
@@ -341,7 +352,14 @@ func (d *repDeriver) derive(v *V, c repCtx) *V {
 		return base
 	}
 	switch k := g.Intn(100); {
-	case k < 22 && !c.noDrop:
+	case k < 22:
+		// a drop, now and then one that yields a drop (that yields a drop): ToLiquid resolves them all
+		switch g.Intn(10) {
+		case 0:
+			return VDrop(VDrop(VDrop(base)))
+		case 1, 2:
+			return VDrop(VDrop(base))
+		}
 		return VDrop(base)
 	case k < 40 && c.ptrOK && base.Kind != 'n':
 		return VPtr(base)
@@ -351,11 +369,20 @@ func (d *repDeriver) derive(v *V, c repCtx) *V {
 
 func (d *repDeriver) array(v *V, c repCtx) *V {
 	g := d.g
-	ec := repCtx{widthsOK: c.widthsOK, noDrop: c.noDropIn, noDropIn: c.noDropIn}
+	ec := repCtx{widthsOK: c.widthsOK}
 	n := len(v.Xs)
 	kind := byte('L')
 	if g.Chance(25) {
 		kind = 'A'
+	}
+	if c.uniform && n > 0 && v.Xs[0].Kind == 'L' {
+		// arrays nested in an array under uniq are compared by what they hold, whatever the Go type that holds it:
+		// each is derived on its own (typed, generic, fixed, behind drops); the scalars keep the generic width
+		xs := make([]*V, n)
+		for i, x := range v.Xs {
+			xs[i] = d.derive(x, repCtx{})
+		}
+		return &V{Kind: kind, Ty: TAny, Xs: xs}
 	}
 	if (c.uniform || g.Chance(45)) && n > 0 {
 		// typed: every element gets the same static type
@@ -403,7 +430,7 @@ func (d *repDeriver) array(v *V, c repCtx) *V {
 				ty = TBool
 			case 'M':
 				for i, x := range v.Xs {
-					xs[i] = d.mapv(x, repCtx{noDropIn: c.noDropIn, widthsOK: c.widthsOK})
+					xs[i] = d.mapv(x, repCtx{widthsOK: c.widthsOK})
 					if xs[i].VTy.C != 'a' { // keep the element type uniform: []map[string]any
 						xs[i] = stripRep(xs[i], "typed")
 					}
@@ -418,7 +445,10 @@ func (d *repDeriver) array(v *V, c repCtx) *V {
 			if ty != nil && !(c.uniform && !g.Chance(60)) {
 				return &V{Kind: kind, Ty: ty, Xs: xs}
 			}
-			if ty != nil && c.uniform { // same element representation, generic container
+			if ty != nil && c.uniform { // same scalar representation, generic container: an element may be a drop
+				for i := range xs {
+					xs[i] = d.dropSome(xs[i])
+				}
 				return &V{Kind: kind, Ty: TAny, Xs: xs}
 			}
 		}
@@ -426,7 +456,7 @@ func (d *repDeriver) array(v *V, c repCtx) *V {
 	xs := make([]*V, n)
 	for i, x := range v.Xs {
 		if c.uniform {
-			xs[i] = x
+			xs[i] = d.dropSome(x)
 		} else {
 			xs[i] = d.derive(x, ec)
 		}
@@ -434,9 +464,20 @@ func (d *repDeriver) array(v *V, c repCtx) *V {
 	return &V{Kind: kind, Ty: TAny, Xs: xs}
 }
 
+// dropSome wraps a value in a drop (or a drop of a drop) now and then.
+func (d *repDeriver) dropSome(v *V) *V {
+	switch k := d.g.Intn(100); {
+	case k < 5:
+		return VDrop(VDrop(v))
+	case k < 22:
+		return VDrop(v)
+	}
+	return v
+}
+
 func (d *repDeriver) mapv(v *V, c repCtx) *V {
 	g := d.g
-	vc := repCtx{ptrOK: c.valPtrOK, widthsOK: c.widthsOK, noDrop: c.noDropIn, noDropIn: c.noDropIn}
+	vc := repCtx{ptrOK: c.valPtrOK, widthsOK: c.widthsOK}
 	kvs := make([][2]*V, len(v.KVs))
 	if g.Chance(35) && len(v.KVs) > 0 {
 		// typed map: all values of one static type
@@ -444,7 +485,7 @@ func (d *repDeriver) mapv(v *V, c repCtx) *V {
 		for i, kv := range v.KVs {
 			vals[i] = kv[1]
 		}
-		arr := d.array(VAnys(vals...), repCtx{uniform: true, widthsOK: c.widthsOK, noDropIn: true})
+		arr := d.array(VAnys(vals...), repCtx{uniform: true, widthsOK: c.widthsOK})
 		if arr.Ty.C != 'a' {
 			for i, kv := range v.KVs {
 				kvs[i] = [2]*V{kv[0], arr.Xs[i]}
@@ -717,15 +758,42 @@ func (t *repGen) stmtFor(v *repVar) {
 			t.add("arrOS-index-cmp", "{{ "+x+"[0].name }}{% if "+x+"[1].name == \"Bob\" %}B{% endif %}{% if "+x+".last.tag contains \"z\" %}Z{% endif %}", false, x)
 		}
 	case "arrA":
-		switch g.Intn(4) {
+		switch k := g.Intn(10); {
+		case k < 4:
+			t.arrAStmt(v)
+		case k == 4:
+			// the inner arrays are printed in Go syntax (fmt.Sprint), with the drops inside them resolved
+			t.add("arrA-join", "{{ "+x+" | join: \";\" }}", false, x)
+		case k == 5:
+			t.add("arrA-to-string", "{{ "+x+" | append: \"\" }}|{{ \"<\" | append: "+x+" }}", false, x)
+		case k == 6:
+			t.add("arrA-sort-natural", "{{ "+x+" | sort_natural | join: \";\" }}", false, x)
+		case k == 7:
+			t.add("arrA-needle", ifElse(t.goLit(v.val)+" contains "+x)+ifElse(t.goLit(v.val)+" contains "+x+"[0]")+ifElse("\"[[]]\" contains "+x+".last"), true, x)
+		case k == 8 && v.ctx.uniform:
+			t.add("arrA-uniq", "{{ "+x+" | uniq | size }}|{{ "+x+" | uniq | join: \";\" }}", false, x)
+		case k == 9:
+			t.add("arrA-eq", ifElse(x+"[0] == "+x+".last")+ifElse(x+" contains "+x+"[0]")+"{% case "+x+"[0] %}{% when "+x+"[1] %}A{% else %}B{% endcase %}", true, x)
+		}
+	case "mapP":
+		// a map with containers inside that is printed, as a whole and in parts
+		switch g.Intn(8) {
 		case 0:
-			t.add("arrA-loop", "{% for r in "+x+" %}{{ r | join: \"-\" }};{% endfor %}", false, x)
+			t.add("mapP-print", "{{ "+x+" }}", false, x)
 		case 1:
-			t.add("arrA-index", "{{ "+x+"[1][0] }}{{ "+x+".first.last }}{{ "+x+"[0].size }}", false, x)
+			t.add("mapP-to-string", "{{ "+x+" | append: \"\" }}", false, x)
 		case 2:
-			t.add("arrA-print", "{{ "+x+" }}", false, x)
+			t.add("mapP-loop", "{% for p in "+x+" %}{{ p[0] }}={{ p[1] }};{% endfor %}", false, x)
+		case 3:
+			t.add("mapP-join", "{{ "+x+" | join: \";\" }}", false, x)
+		case 4:
+			t.add("mapP-parts", "{{ "+x+".inner }}|{{ "+x+".list }}|{{ "+x+".rows }}|{{ "+x+"[\"inner\"].k }}{{ "+x+".rows[0][0] }}", false, x)
+		case 5:
+			t.add("mapP-needle", ifElse(t.goLit(v.val)+" contains "+x)+ifElse(t.goLit(v.val)+" contains "+x+".inner")+ifElse(t.goLit(v.val)+" contains "+x+".rows"), true, x)
+		case 6:
+			t.add("mapP-parts-to-string", "{{ "+x+".inner | append: \"\" }}|{{ "+x+".rows | join: \";\" }}|{{ "+x+".list | append: \"\" }}", false, x)
 		default:
-			t.add("arrA-nested-loop", "{% for r in "+x+" %}{% for e in r %}{{ e }},{% endfor %}|{% endfor %}", false, x)
+			t.add("mapP-eq", ifElse(x+".rows[0] == "+x+".list")+ifElse(x+".rows contains "+x+".list")+ifElse(x+" == "+x), true, x)
 		}
 	case "map":
 		t.mapStmt(v)
@@ -745,12 +813,37 @@ func (t *repGen) stmtFor(v *repVar) {
 	}
 }
 
+func (t *repGen) arrAStmt(v *repVar) {
+	x := v.name
+	switch t.g.Intn(4) {
+	case 0:
+		t.add("arrA-loop", "{% for r in "+x+" %}{{ r | join: \"-\" }};{% endfor %}", false, x)
+	case 1:
+		t.add("arrA-index", "{{ "+x+"[1][0] }}{{ "+x+".first.last }}{{ "+x+"[0].size }}", false, x)
+	case 2:
+		t.add("arrA-print", "{{ "+x+" }}", false, x)
+	default:
+		t.add("arrA-nested-loop", "{% for r in "+x+" %}{% for e in r %}{{ e }},{% endfor %}|{% endfor %}", false, x)
+	}
+}
+
+// goLit: a string literal that holds what the (generic) value prints as in Go syntax, the text that a container
+// converted to a string gives.
+func (t *repGen) goLit(v *V) string { return "\"<" + fmt.Sprint(v.Realise()) + ">\"" }
+
 func (t *repGen) arrStmt(v *repVar) {
 	g := t.g
 	x := v.name
 	numeric := v.kind == "arrI" || v.kind == "arrF"
 	el := func() *V { return v.val.Xs[g.Intn(len(v.val.Xs))] }
-	switch k := g.Intn(16); {
+	switch k := g.Intn(19); {
+	case k == 16:
+		// the array converted to a string is printed in Go syntax (fmt.Sprint), with the drops inside it resolved
+		t.add("arr-to-string", "{{ "+x+" | append: \"\" }}|{{ \"<\" | append: "+x+" }}", false, x)
+	case k == 17:
+		t.add("arr-needle", ifElse(t.goLit(v.val)+" contains "+x), true, x)
+	case k == 18:
+		t.add("arr-sort-natural", "{{ "+x+" | sort_natural | join: \",\" }}", false, x)
 	case k == 0:
 		t.add("arr-print", "{{ "+x+" }}", false, x)
 	case k == 1:
@@ -832,7 +925,14 @@ func (t *repGen) mapStmt(v *repVar) {
 		}
 		return
 	}
-	switch g.Intn(5) {
+	switch g.Intn(8) {
+	case 5:
+		// the map is printed in Go syntax (fmt.Sprint), with the drops inside it resolved
+		t.add("map-print", "{{ "+x+" }}", false, x)
+	case 6:
+		t.add("map-to-string", "{{ "+x+" | append: \"\" }}|{{ "+x+" | join: \",\" }}", false, x)
+	case 7:
+		t.add("map-needle", ifElse(t.goLit(v.val)+" contains "+x), true, x)
 	case 0:
 		t.add("map-loop", "{% for p in "+x+" %}{{ p[0] }}={{ p[1] }};{% endfor %}", false, x)
 	case 1:
@@ -917,7 +1017,11 @@ func genRepCase(g *RNG) *repGen {
 		}), repCtx{ptrOK: true})
 	}
 	if g.Bool() {
-		add("aa", "arrA", arr(2+g.Intn(2), func() *V { return arr(1+g.Intn(3), rsmall) }), repCtx{ptrOK: true, widthsOK: true})
+		aa := arr(2+g.Intn(2), func() *V { return arr(1+g.Intn(3), rsmall) })
+		if g.Chance(40) { // an inner array twice, for uniq
+			aa.Xs[len(aa.Xs)-1] = aa.Xs[0]
+		}
+		add("aa", "arrA", aa, repCtx{ptrOK: true, widthsOK: true, uniform: g.Chance(35)})
 	}
 	mk := func(n int) *V {
 		var kvs [][2]*V
@@ -947,6 +1051,11 @@ func genRepCase(g *RNG) *repGen {
 	}
 	if g.Bool() {
 		add("m2", "map2", VStrMap(SKV("list", arr(1+g.Intn(3), rsmall)), SKV("inner", VStrMap(SKV("k", rsmall()), SKV("j", rstr())))), repCtx{ptrOK: true, widthsOK: true, valPtrOK: true, mapSlice: true})
+	}
+	if g.Bool() {
+		list := arr(1+g.Intn(3), rsmall)
+		add("mp", "mapP", VStrMap(SKV("list", list), SKV("inner", VStrMap(SKV("k", rsmall()), SKV("j", rstr()))),
+			SKV("rows", VAnys(list, arr(g.Intn(3), rstr))), SKV("v", rflt())), repCtx{ptrOK: true, widthsOK: true})
 	}
 	n := 6 + g.Intn(10)
 	for k := 0; k < n*3 && len(t.stmts) < n; k++ {
@@ -1185,46 +1294,260 @@ func (s repStmt) plain() bool {
 	return !s.cmp && !strings.Contains(s.src, "|") && !strings.Contains(s.src, "tablerow") && !strings.Contains(s.src, " contains ")
 }
 
-// repsNestedDropFamily: the places where the whole-template theorem of C18 (run_std_rep_independent_partial)
-// needed a side condition, run on the real engine as pairs (representation variant, generic twin) that C18 says
-// render alike. Each pair that differs is reported with a fixed case name, so that a deviation that is recorded
-// in known_findings.json is printed as KNOWN-FINDING and any other one as a VIOLATION. Implementation only.
+// repsNestedDropFamily: the places where the whole-template theorem of C18 once needed a side condition (a drop
+// nested below the top of a value that is printed in Go syntax or compared; a drop that yields a drop; a typed
+// container nested in an array under uniq), run on the real engine. They were deviations of the library (a drop in
+// a printed map rendered as the Go struct `{1}`, a drop of a drop in an array was unequal to its value, uniq told
+// []int{1} from []any{1}) and are repaired by fixes/nested-drops-resolved.patch: values.ToLiquid resolves a drop
+// that yields a drop, values.ResolveDrops resolves the drops at every depth before every fmt.Sprint, uniq compares
+// arrays and maps by what they hold. Every row of the family MUST AGREE now; there is no KNOWN-FINDING any more.
+//
+// A row is (name, template, variant bindings). ORACLE: the variant renders exactly what its generic twin renders,
+// where the twin is made from the variant by genericTwin: the drop wrappers removed and every slice, array and map
+// turned into []any / map[K]any, at every depth (scalars are left as they are: uniq still tells int8(1) from 1).
+// The rows are the seven named pairs of the first version of the family, a few lookups through nested drops, and
+// the product of the shapes (nestedArrayShapes, nestedMapShapes) with every printing and comparison path
+// (nestedArrayPaths, nestedMapPaths), named `<shape>/<path>`. A row that differs is reported under the fixed case
+// name `reps-nested <name>` as a C18 violation. Implementation only (shard 0).
+//
+// Left out of the paths on purpose: the filters json, inspect and type show the Go representation by design
+// (`{{ m | json }}` with m = {"a": dropV{1}} is {"a":{}}, the JSON of a struct without exported fields, against
+// {"a":1}; type names the Go type), so C18 does not speak of them.
 func repsNestedDropFamily(r *Run) {
-	type pair struct {
-		name, src string
-		variant   map[string]any
-		generic   map[string]any
-	}
-	d := func(v any) any { return dropV{v} }
-	pairs := []pair{
-		// a drop inside a map that is printed as a whole (fmt.Sprint shows the drop's Go struct)
-		{"drop-in-printed-map", "{{ m }}", map[string]any{"m": map[string]any{"a": d(1)}}, map[string]any{"m": map[string]any{"a": 1}}},
-		// a drop inside an array that is converted to a string parameter
-		{"drop-in-array-to-string", `{{ a | append: "" }}`, map[string]any{"a": []any{d(1)}}, map[string]any{"a": []any{1}}},
-		// a drop that yields a drop, nested in an array, under values.Equal
-		{"drop-of-drop-in-array-equal", "{% case a %}{% when b %}eq{% else %}ne{% endcase %}", map[string]any{"a": []any{d(d(1))}, "b": []any{1}}, map[string]any{"a": []any{1}, "b": []any{1}}},
-		// uniq compares elements by Go equality of their dynamic types: a typed slice element is not its generic twin
-		{"uniq-typed-nested-slice", "{{ a | uniq | size }}", map[string]any{"a": []any{[]int{1}, []any{1}}}, map[string]any{"a": []any{[]any{1}, []any{1}}}},
-		// controls that must agree (they do): drops at variables, in arrays under loops, joins, comparisons, typed containers
-		{"control-drop-in-array-join", "{{ a | join: ',' }}|{% for x in a %}{{ x }}{% endfor %}|{{ a.first }}", map[string]any{"a": []any{d(1), d("b")}}, map[string]any{"a": []any{1, "b"}}},
-		{"control-drop-in-map-lookup", "{{ m.a }}|{% if m.a == 1 %}T{% endif %}|{{ m.a | plus: 1 }}", map[string]any{"m": map[string]any{"a": d(1)}}, map[string]any{"m": map[string]any{"a": 1}}},
-		{"control-typed-containers", "{{ a | join: ',' }}|{{ a | reverse | first }}|{{ m.k }}|{{ a | sort | last }}", map[string]any{"a": []int{3, 1, 2}, "m": map[string]int{"k": 7}}, map[string]any{"a": []any{3, 1, 2}, "m": map[string]any{"k": 7}}},
-	}
-	for _, p := range pairs {
-		render := func(b map[string]any) string {
-			return guard(func() string {
-				out, err := liquid.NewEngine().ParseAndRenderString(p.src, b)
-				if err != nil {
-					return "err " + err.Error()
-				}
-				return "ok " + out
-			})
+	for _, p := range nestedRows() {
+		render := func(b map[string]any) string { return renderImpl(engineCfg{}, "", 0, p.src, b) }
+		generic := map[string]any{}
+		for k, v := range p.variant {
+			generic[k] = genericTwin(v)
 		}
-		got, want := render(p.variant), render(p.generic)
+		got, want := render(p.variant), render(generic)
 		r.Count("nested-drop-family")
-		if got != want {
+		if repCanon(got) != repCanon(want) {
 			r.Violate("C18", "rep:nested", "reps-nested "+p.name+" "+hexField(p.src),
-				fmt.Sprintf("%q renders %q with the representation variant and %q with its generic twin", p.src, got, want))
+				fmt.Sprintf("%q renders %s with the representation variant and %s with its generic twin", p.src, resultSummary(got), resultSummary(want)))
 		}
 	}
+}
+
+type nestedRow struct {
+	name, src string
+	variant   map[string]any
+}
+
+// genericTwin: the same Liquid value in the generic representation - no drop wrapper, every slice and array a
+// []any, every map a map[K]any - at every depth. Scalars, strings and []byte are returned as they are.
+func genericTwin(v any) any {
+	for {
+		d, ok := v.(dropV)
+		if !ok {
+			break
+		}
+		v = d.v
+	}
+	if v == nil {
+		return nil
+	}
+	anyT := reflect.TypeOf([]any{}).Elem()
+	rv := reflect.ValueOf(v)
+	switch rv.Kind() {
+	case reflect.Slice, reflect.Array:
+		if rv.Type().Elem().Kind() == reflect.Uint8 {
+			return v
+		}
+		out := make([]any, rv.Len())
+		for i := range out {
+			out[i] = genericTwin(rv.Index(i).Interface())
+		}
+		return out
+	case reflect.Map:
+		out := reflect.MakeMapWithSize(reflect.MapOf(rv.Type().Key(), anyT), rv.Len())
+		for it := rv.MapRange(); it.Next(); {
+			if e := genericTwin(it.Value().Interface()); e == nil {
+				out.SetMapIndex(it.Key(), reflect.Zero(anyT))
+			} else {
+				out.SetMapIndex(it.Key(), reflect.ValueOf(e))
+			}
+		}
+		return out.Interface()
+	}
+	return v
+}
+
+type nestedShape struct {
+	name string
+	val  any
+}
+
+func nestedArrayShapes() []nestedShape {
+	d := func(v any) any { return dropV{v} }
+	type l = []any
+	type m = map[string]any
+	return []nestedShape{
+		// drops in arrays, at depth 1, 2 and 3
+		{"arr-drop-d1", l{d(1), d("b"), 2}},
+		{"arr-drop-d2", l{l{d(1), 2}, l{d("x")}, l{}}},
+		{"arr-drop-d3", l{l{l{d(1), d("y")}, 2}, l{l{d(2.5)}}}},
+		{"arr-drop-every-depth", d(l{d(l{d(l{d(1)}), d(2)}), d(3)})},
+		{"arr-drop-nil", l{l{d(nil), 1}, d(nil), l{d(d(nil))}}},
+		// a drop that yields a drop (that yields a drop)
+		{"arr-drop-of-drop", l{d(d(1)), d(d("b")), 1}},
+		{"arr-drop-of-drop-d2", l{l{d(d(1)), 1}, d(d(l{d(d("x"))}))}},
+		{"arr-drop3", l{d(d(d(1))), l{d(d(d("x")))}, d(d(d(l{1})))}},
+		{"arr-drop3-top", d(d(d(l{d(d(d(1))), 2})))},
+		// maps inside arrays: drops as map values
+		{"arr-map-drop-value", l{m{"k": d(1)}, m{"k": d("x")}, m{"k": 1}}},
+		{"arr-drop-map-drop-value", l{d(m{"k": d(d(1))}), m{"k": l{d(2)}}}},
+		{"arr-map-arr-drop", l{m{"k": l{d(1), l{d(2)}}}, m{"k": l{1, l{2}}}}},
+		// typed containers nested in arrays (the elements of uniq)
+		{"arr-typed-slices", l{[]int{1}, l{1}, []int{1, 2}, [1]int{1}, l{d(1)}}},
+		{"arr-typed-strings", l{[]string{"a"}, l{"a"}, l{d("a")}, [1]string{"a"}, []string{"b"}}},
+		{"arr-typed-nested-d2", l{l{[]int{1}}, l{l{1}}, [][]int{{1}}, l{l{d(d(1))}}, []any{[]float64{1}}}},
+		{"arr-typed-maps", l{map[string]int{"k": 1}, m{"k": 1}, m{"k": d(1)}, d(map[string]int{"k": 1}), m{"k": 2}}},
+		{"arr-typed-map-of-slices", l{map[string][]int{"k": {1}}, m{"k": l{1}}, m{"k": l{d(1)}}, map[string][]any{"k": {d(d(1))}}}},
+		{"arr-typed-slice-of-maps", l{[]map[string]any{{"k": d(1)}}, l{m{"k": 1}}, []map[string]int{{"k": 1}}}},
+		{"arr-of-drops-typed", []dropV{{1}, {dropV{"b"}}, {1}}},
+	}
+}
+
+// nestedArrayPaths: a is the shape, b its generic twin, e the generic twin of its first element, s a string that
+// holds what b prints as, c a second array.
+var nestedArrayPaths = [][2]string{
+	{"print", "{{ a }}"},
+	{"join", "{{ a | join: ',' }}"},
+	{"to-string", `{{ a | append: "" }}|{{ "" | append: a }}|{{ a | upcase }}`},
+	{"first", "{{ a | first }}|{{ a.first }}|{{ a.first.first }}"},
+	{"last", "{{ a | last }}|{{ a.last }}|{{ a.last.last }}"},
+	{"for", "{% for x in a %}{{ x }};{% endfor %}"},
+	{"for-for", "{% for x in a %}{% for y in x %}{{ y }},{% endfor %};{% endfor %}"},
+	{"tablerow", "{% tablerow x in a %}{{ x }}{% endtablerow %}"},
+	{"assign-capture", "{% assign v = a %}{{ v }}|{% capture w %}{{ a }}{% endcapture %}{{ w }}"},
+	{"eq", "{% if a == b %}T{% else %}F{% endif %}{% if b == a %}T{% else %}F{% endif %}{% if a[0] == e %}T{% else %}F{% endif %}"},
+	{"ne", "{% if a != b %}T{% else %}F{% endif %}{% if b != a %}T{% else %}F{% endif %}{% unless a[0] != e %}U{% endunless %}"},
+	{"order", "{% if a < b %}T{% else %}F{% endif %}{% if a[0] <= e %}T{% else %}F{% endif %}{% if a[0] >= e %}T{% else %}F{% endif %}"},
+	{"contains-element", "{% if a contains e %}T{% else %}F{% endif %}{% if b contains a[0] %}T{% else %}F{% endif %}{% if a contains a[0] %}T{% else %}F{% endif %}"},
+	{"needle", "{% if s contains a %}T{% else %}F{% endif %}{% if s contains a[0] %}T{% else %}F{% endif %}{% if s contains a.last %}T{% else %}F{% endif %}"},
+	{"case-when", "{% case a %}{% when b %}eq{% else %}ne{% endcase %}{% case e %}{% when a[0] %}eq{% else %}ne{% endcase %}{% case a[0] %}{% when 0, e %}eq{% else %}ne{% endcase %}"},
+	{"sort", "{{ a | sort | join: ',' }}"},
+	{"sort-natural", "{{ a | sort_natural | join: ',' }}"},
+	{"sort-key", "{{ a | sort: 'k' | join: ',' }}|{{ a | sort_natural: 'k' | join: ',' }}"},
+	{"uniq", "{{ a | uniq | size }}|{{ a | uniq | join: ',' }}"},
+	{"compact", "{{ a | compact | join: ',' }}|{{ a | compact | size }}"},
+	{"concat", "{{ a | concat: c | join: ',' }}|{{ c | concat: a | uniq | size }}|{{ a | concat: b | uniq | size }}"},
+	{"reverse", "{{ a | reverse | join: ',' }}|{{ a | reverse | first }}"},
+	{"map", "{{ a | map: 'k' | join: ',' }}|{{ a | map: 'k' | uniq | size }}"},
+	{"size", "{{ a | size }}|{{ a.size }}|{{ a[0].size }}|{{ a[0] | size }}"},
+	{"index", "{{ a[0] }}|{{ a[0][0] }}|{{ a[0][0][0] }}|{{ a[-1] }}|{{ a[1][0] }}|{{ a[0].k }}|{{ a[0].k[1][0] }}|{{ a[0]['k'] }}"},
+	{"truth-default", "{% if a[0] %}T{% else %}F{% endif %}{{ a[0] | default: 'dflt' }}|{{ a[1] | default: 'dflt' }}"},
+	{"string-filters", "{{ a | escape }}|{{ a | strip_html }}|{{ a | url_encode }}|{{ a | replace: '1', '2' }}|{{ a | truncate: 9 }}|{{ a | remove: '[' }}|{{ a | capitalize }}|{{ a | strip }}|{{ a | split: ' ' | first }}"},
+	{"string-args", "{{ 'x' | prepend: a }}|{{ 'a-b' | replace: '-', a }}|{{ s | remove: a }}|{{ s | split: a | join: '#' }}|{{ s | replace_first: a, 'R' }}"},
+	{"default", "{{ a | default: 'x' }}|{{ nil | default: a }}|{{ a[0] | default: a }}"},
+	{"for-modifiers", "{% for x in a limit: 1 %}{{ x }}{% endfor %}|{% for x in a reversed %}{{ x }};{% endfor %}|{% for x in a offset: 1 %}{{ x }};{% endfor %}|{% for x in a[0] %}{{ x }};{% else %}E{% endfor %}"},
+	{"conditions", "{% if a %}T{% endif %}{% if a[0] and a[1] %}T{% else %}F{% endif %}{% unless a.last %}U{% endunless %}"},
+	{"assign-filter", "{% assign v = a | first %}{{ v }}|{% assign w = a | reverse %}{{ w | first }}|{{ w[0] }}|{% if w[0] == a.last %}T{% else %}F{% endif %}"},
+	{"contains-scalar", "{% if a contains '1' %}T{% else %}F{% endif %}{% if a contains 1 %}T{% else %}F{% endif %}{% if a[0] contains 1 %}T{% else %}F{% endif %}{% if a contains nil %}T{% else %}F{% endif %}"},
+	{"case-when-literals", "{% case a[0] %}{% when 1 %}one{% when 'a' %}a{% when e %}e{% else %}other{% endcase %}"},
+	{"concat-uniq", "{{ a | concat: a | uniq | size }}|{{ b | concat: a | uniq | size }}|{{ a | concat: b | uniq | join: ';' }}|{{ a | reverse | concat: b | uniq | size }}"},
+	{"concat-sort", "{{ a | concat: b | sort | join: ';' }}|{{ a | concat: c | sort_natural | join: ';' }}|{{ c | concat: a | sort | join: ';' }}"},
+	{"tablerow-cols", "{% tablerow x in a cols: 2 limit: 3 %}{{ x }}{% endtablerow %}"},
+	{"index-variable", "{% assign i = 0 %}{{ a[i] }}|{{ a[i][i] }}|{% assign k = 'k' %}{{ a[0][k] }}"},
+}
+
+func nestedMapShapes() []nestedShape {
+	d := func(v any) any { return dropV{v} }
+	type l = []any
+	type m = map[string]any
+	return []nestedShape{
+		// drops as map values, at depth 1, 2 and 3
+		{"map-drop-value", m{"a": d(1), "b": d("x"), "c": 2}},
+		{"map-drop-d2", m{"a": m{"b": d(1), "c": d("x")}, "z": d(nil)}},
+		{"map-drop-d3", m{"a": m{"b": m{"c": d(1)}, "c": d(2.5)}}},
+		{"map-drop-every-depth", d(m{"a": d(m{"b": d(m{"c": d(1)})})})},
+		// a drop that yields a drop (that yields a drop)
+		{"map-drop-of-drop", m{"a": d(d(1)), "b": m{"b": d(d("x"))}}},
+		{"map-drop3", d(d(d(m{"a": d(d(d(1))), "b": d(d(d(m{"b": d(d(d("x")))})))})))},
+		// arrays inside maps
+		{"map-arr-drop", m{"a": l{d(1), d("x")}, "b": l{l{d(2)}}}},
+		{"map-drop-arr-drop-map", m{"a": d(l{d(m{"b": d(1)}), d(d(2))})}},
+		// typed containers
+		{"map-typed-values", m{"a": []int{1, 2}, "b": map[string]int{"b": 1}, "c": [1]string{"x"}}},
+		{"map-typed-of-drops", map[string]dropV{"a": {1}, "b": {dropV{"x"}}}},
+		{"map-typed-of-slices", map[string][]any{"a": {d(1)}, "b": {l{d(d(2))}}}},
+		{"map-int-keys", map[int]any{1: d(1), 2: l{d("x")}}},
+	}
+}
+
+// nestedMapPaths: m is the shape, n its generic twin, s a string that holds what n prints as.
+var nestedMapPaths = [][2]string{
+	{"print", "{{ m }}"},
+	{"to-string", `{{ m | append: "" }}|{{ "" | append: m }}|{{ m | downcase }}`},
+	{"join", "{{ m | join: ',' }}"},
+	{"for", "{% for p in m %}{{ p[0] }}={{ p[1] }};{% endfor %}"},
+	{"for-pair", "{% for p in m %}{{ p }};{{ p | join: '=' }};{% endfor %}"},
+	{"assign-capture", "{% assign v = m %}{{ v }}|{% capture w %}{{ m }}{% endcapture %}{{ w }}"},
+	{"eq", "{% if m == n %}T{% else %}F{% endif %}{% if n == m %}T{% else %}F{% endif %}{% if m.a == n.a %}T{% else %}F{% endif %}"},
+	{"ne", "{% if m != n %}T{% else %}F{% endif %}{% if n.a != m.a %}T{% else %}F{% endif %}"},
+	{"case-when", "{% case m %}{% when n %}eq{% else %}ne{% endcase %}{% case n.a %}{% when m.a %}eq{% else %}ne{% endcase %}"},
+	{"contains", "{% if m contains 'a' %}T{% else %}F{% endif %}{% if m.a contains 'b' %}T{% else %}F{% endif %}{% if m.a contains 1 %}T{% else %}F{% endif %}"},
+	{"needle", "{% if s contains m %}T{% else %}F{% endif %}{% if s contains m.a %}T{% else %}F{% endif %}{% if s contains m.b %}T{% else %}F{% endif %}"},
+	{"size", "{{ m | size }}|{{ m.size }}|{{ m.a.size }}|{{ m.a | size }}"},
+	{"lookup", "{{ m.a }}|{{ m.a.b }}|{{ m.a.b.c }}|{{ m['a']['b'] }}|{{ m.a[0] }}|{{ m.a[0].b }}|{{ m.b.b }}|{{ m.b[0][0] }}|{{ m[1] }}|{{ m[2][0] }}"},
+	{"lookup-to-string", "{{ m.a | append: '' }}|{{ m.b | append: '' }}|{{ m.a.b | append: '' }}|{{ m.a[0] | append: '' }}|{{ m[2] | append: '' }}"},
+	{"lookup-array-filters", "{{ m.b | join: ',' }}|{{ m.a | join: ',' }}|{{ m.a | first }}|{{ m.a | sort | last }}|{{ m.a | uniq | size }}|{{ m.a | reverse | join: ',' }}"},
+	{"lookup-arith-a", "{{ m.a | plus: 1 }}|{{ 2 | times: m.a }}|{% if m.a > 0 %}T{% else %}F{% endif %}"},
+	{"lookup-arith-ab", "{{ m.a.b | plus: 1 }}|{{ 2 | times: m.a.b }}|{% if m.a.b > 0 %}T{% else %}F{% endif %}"},
+	{"lookup-arith-abc", "{{ m.a.b.c | plus: 1 }}|{{ 2 | times: m.a.b.c }}|{% if m.a.b.c > 0 %}T{% else %}F{% endif %}"},
+	{"values", "{{ m | sort | join: ',' }}|{{ m | uniq | size }}|{{ m | compact | size }}|{{ m | reverse | join: ',' }}|{{ m | first }}|{{ m | last }}"},
+	{"truth-default", "{% if m.a %}T{% else %}F{% endif %}{% if m.z %}T{% else %}F{% endif %}{{ m.z | default: 'dflt' }}|{{ m.a | default: 'dflt' }}"},
+	{"string-filters", "{{ m | escape }}|{{ m | url_encode }}|{{ m | replace: '1', '2' }}|{{ m | truncate: 9 }}|{{ m | capitalize }}|{{ m | split: ' ' | last }}"},
+	{"string-args", "{{ 'x' | prepend: m }}|{{ s | remove: m }}|{{ s | split: m | join: '#' }}|{{ 'x' | append: m.a }}|{{ s | remove: m.a }}"},
+	{"default", "{{ m | default: 'x' }}|{{ nil | default: m }}|{{ m.zz | default: m.a }}"},
+	{"for-modifiers", "{% for p in m limit: 1 %}{{ p }}{% endfor %}|{% for p in m reversed %}{{ p[1] }};{% endfor %}|{% for x in m.a %}{{ x }};{% else %}E{% endfor %}|{% for x in m.b %}{{ x }};{% endfor %}"},
+	{"values-sorted", "{{ m | sort | first }}|{{ m | sort_natural | join: ';' }}|{{ m | map: 'b' | join: ';' }}|{{ m | concat: m | uniq | size }}"},
+	{"conditions", "{% if m %}T{% endif %}{% if m.a and m.b %}T{% else %}F{% endif %}{% unless m.z %}U{% endunless %}{% if m.a == nil %}N{% endif %}{% if m.z == nil %}N{% endif %}"},
+	{"key-variable", "{% assign k = 'a' %}{{ m[k] }}|{{ m[k].b }}|{% assign j = 'b' %}{{ m[k][j] }}|{{ m[j][j] }}"},
+	{"assign", "{% assign v = m.a %}{{ v }}|{{ v.b }}|{{ v[0] }}|{% if v == n.a %}T{% else %}F{% endif %}|{% capture c %}{{ m.a }}{% endcapture %}{{ c | size }}"},
+}
+
+func nestedRows() []nestedRow {
+	d := func(v any) any { return dropV{v} }
+	type l = []any
+	type m = map[string]any
+	type b = map[string]any
+	rows := []nestedRow{
+		// the four deviations that fixes/nested-drops-resolved.patch repaired, under the names they were reported with:
+		// a drop inside a map that is printed as a whole (fmt.Sprint showed the drop's Go struct)
+		{"drop-in-printed-map", "{{ m }}", b{"m": m{"a": d(1)}}},
+		// a drop inside an array that is converted to a string parameter
+		{"drop-in-array-to-string", `{{ a | append: "" }}`, b{"a": l{d(1)}}},
+		// a drop that yields a drop, nested in an array, under values.Equal
+		{"drop-of-drop-in-array-equal", "{% case a %}{% when b %}eq{% else %}ne{% endcase %}", b{"a": l{d(d(1))}, "b": l{1}}},
+		// uniq compared elements by Go equality of their dynamic types: a typed slice element was not its generic twin
+		{"uniq-typed-nested-slice", "{{ a | uniq | size }}", b{"a": l{[]int{1}, l{1}}}},
+		// the controls of the first version: drops at variables, in arrays under loops, joins, comparisons, typed containers
+		{"control-drop-in-array-join", "{{ a | join: ',' }}|{% for x in a %}{{ x }}{% endfor %}|{{ a.first }}", b{"a": l{d(1), d("b")}}},
+		{"control-drop-in-map-lookup", "{{ m.a }}|{% if m.a == 1 %}T{% endif %}|{{ m.a | plus: 1 }}", b{"m": m{"a": d(1)}}},
+		{"control-typed-containers", "{{ a | join: ',' }}|{{ a | reverse | first }}|{{ m.k }}|{{ a | sort | last }}", b{"a": []int{3, 1, 2}, "m": map[string]int{"k": 7}}},
+		// scalars under uniq are still told apart by Go's ==, with and without the wrappers (both sides render 3)
+		{"control-uniq-scalar-widths", "{{ a | uniq | size }}", b{"a": l{d(1), d(d(int8(1))), 1.0, d(1), l{d(1)}, l{int8(1)}}}},
+		// property and index lookup through nested drops
+		{"lookup-property-through-drops", "{{ m.a.b }}|{{ m.a.b.c }}|{{ m['a'].b['c'] }}|{{ m.a.b.c | plus: 1 }}|{{ m.a.b.size }}", b{"m": d(m{"a": d(d(m{"b": d(m{"c": d(d(d(1)))})}))})}},
+		{"lookup-index-through-drops", "{{ a[0][0] }}|{{ a[0][1][0] }}|{{ a.first.last.first }}|{{ a[0][0] | plus: 1 }}|{{ a[0][1] | size }}", b{"a": d(l{d(d(l{d(1), d(l{d(d(d(2)))})}))})}},
+		{"lookup-mixed-through-drops", "{{ m.a[0].b[1] }}|{{ m.a.first.b.last }}|{{ m.a[0].b | join: ',' }}|{% for x in m.a[0].b %}{{ x }};{% endfor %}", b{"m": m{"a": d(l{d(m{"b": d(l{d(1), d(d(2))})})})}}},
+		{"lookup-five-drops-in-a-row", "{{ a[0] }}|{{ a[1].k }}|{{ a | size }}", b{"a": l{d(d(d(d(d(1))))), d(d(d(d(m{"k": d(d(d(d("v"))))}))))}}},
+	}
+	for _, sh := range nestedArrayShapes() {
+		twin := genericTwin(sh.val).([]any)
+		bind := b{"a": sh.val, "b": twin, "e": twin[0], "s": "<" + fmt.Sprint(twin) + ">", "c": l{d(9), l{d(d(9))}}}
+		for _, p := range nestedArrayPaths {
+			rows = append(rows, nestedRow{sh.name + "/" + p[0], p[1], bind})
+		}
+	}
+	for _, sh := range nestedMapShapes() {
+		twin := genericTwin(sh.val)
+		bind := b{"m": sh.val, "n": twin, "s": "<" + fmt.Sprint(twin) + ">"}
+		for _, p := range nestedMapPaths {
+			rows = append(rows, nestedRow{sh.name + "/" + p[0], p[1], bind})
+		}
+	}
+	return rows
 }
